@@ -240,6 +240,13 @@ class Resolver:
                 return []
             # Class.method / Outer.Inner(...) constructor
             ch = attr_chain(f)
+            if ch and len(ch) == 2 and ch[0] in fn.module.imports:
+                # module.function(...) for an imported repo module
+                imp = fn.module.imports[ch[0]]
+                dotted = imp.replace(':', '.')
+                for m in repo.modules.values():
+                    if m.dotted == dotted and f'{m.rel}:{name}' in repo.funcs:
+                        return [repo.funcs[f'{m.rel}:{name}']]
             if ch:
                 c = repo.resolve_class('.'.join(ch), fn.module)
                 if c is not None:
